@@ -36,7 +36,7 @@ CFG = dict(
          "real client + real server: 64 goroutines start 10^4 (thorough 10^5) calls (10% bidi streams) on one connection with seeded "
          "yields at the verif hook points; ids of all first envelopes taken from the wire, (request, reply) recorded by every caller (emitted as records of <= 2000 ids / pairs: the sorted id list in consecutive runs that overlap by one id, so that strictly increasing per record is pairwise distinct overall); one unary call in seven has an "
          "already-ended context (its transport write fails cleanly while the others are in flight), one stream in three is aborted by "
-         "its handler while the client still sends; (c') TestC05Surplus: surplus replies to one unary call in one burst, then later calls on the same connection each answered by its own reply (distinct tokens); (c'') TestC05Slow (72 cases): a stream takes no response while the peer sends it 4 / 5 / 7 envelopes (and some to a call that keeps up), the VIRTUAL CLOCK is advanced by 10 ms / 100 ms / 1 s after every delivery / once / before the drain / during the drain, then the stream drains everything: received = sent, position by position; TestC05Wide (22 cases; the WIDTH of the allocator, which C05_unique assumes as 'fewer than 2^64 ids', is checked here): white-box, the verif accessor ClientConn.VerifSetIdCounter (reflection: independent of the declared type of the counter) sets the allocation counter to 2^16-3 / 2^31-2 / 2^32-3 / 2^32+5 / 2^53-1 / 2^63-2 / 2^64-12 on a connection with a long-lived first stream (id 1) and 0..2 more calls alive, fresh connection per point and all points in a row; 8 more calls (unary and stream) at each point: ids on the wire = counter+1.. (reason 1, C05_counter), pairwise distinct, never 0, distinct from every live call's id (reason 2), each unary call gets the reply to its own request (9), the first stream still receives what is sent to it (4); TestC05ByRef (36 cases): real client - real server over a link that passes the writer's *Rpc BY REFERENCE (like NewGoatOverChannel), one caller goroutine abandons 1..3 unary calls (deadline on the virtual clock / cancel) while their handlers are still blocked, each immediately followed by the next call, then two calls it waits for; handlers released abandoned-first / new-first / alternating; ids read at write time, (request, reply) pairing judged (9); TestC05ServerKeys: one real server connection, scripted peer, streams of sources whose name + id collide under concatenation (client-1/12 vs client-11/2 ...), alive together; (c) TestC05Fault, in a bubble with a transport that holds writes: 1..2 unary calls "
+         "its handler while the client still sends; (c') TestC05Surplus: surplus replies to one unary call in one burst, then later calls on the same connection each answered by its own reply (distinct tokens); (c'') TestC05Slow (138 cases): a stream takes no response while the peer sends it 4 / 5 / 7 and (far behind: round limits 16, 64, 128 of a per-call backlog + 1, 2 and beyond) 17 / 18 / 65 / 66 / 67 / 68 / 70 / 129 / 130 / 131 / 200 envelopes (and some to a call that keeps up), the VIRTUAL CLOCK is advanced by 10 ms / 100 ms / 1 s after every delivery / once / before the drain / during the drain, then the stream drains everything: received = sent, position by position; TestC05Wide (22 cases; the WIDTH of the allocator, which C05_unique assumes as 'fewer than 2^64 ids', is checked here): white-box, the verif accessor ClientConn.VerifSetIdCounter (reflection: independent of the declared type of the counter) sets the allocation counter to 2^16-3 / 2^31-2 / 2^32-3 / 2^32+5 / 2^53-1 / 2^63-2 / 2^64-12 on a connection with a long-lived first stream (id 1) and 0..2 more calls alive, fresh connection per point and all points in a row; 8 more calls (unary and stream) at each point: ids on the wire = counter+1.. (reason 1, C05_counter), pairwise distinct, never 0, distinct from every live call's id (reason 2), each unary call gets the reply to its own request (9), the first stream still receives what is sent to it (4); TestC05ByRef (36 cases): real client - real server over a link that passes the writer's *Rpc BY REFERENCE (like NewGoatOverChannel), one caller goroutine abandons 1..3 unary calls (deadline on the virtual clock / cancel) while their handlers are still blocked, each immediately followed by the next call, then two calls it waits for; handlers released abandoned-first / new-first / alternating; ids read at write time, (request, reply) pairing judged (9); TestC05ServerKeys: one real server connection, scripted peer, streams of sources whose name + id collide under concatenation (client-1/12 vs client-11/2 ...), alive together; (c) TestC05Fault, in a bubble with a transport that holds writes: 1..2 unary calls "
          "whose Write fails cleanly (context ends while the write waits / write error) while 1..3 later calls are in flight, then 1..2 new "
          "calls; the peer answers every request it received with token + 1 under the request's id; these cases are ALSO compared with the "
          "model (reason 1): a Write held by the transport is the model state 'id allocated, not yet registered + written'; "
